@@ -374,9 +374,16 @@ func c07OperationsInfo(p *Prog, r *Report) {
 				}
 				seen[need] = true
 				has := false
+				// iff: guarded by its own flag and by nothing but the flags of the same operation
+				allowed := map[string]bool{"recv.read": need == "read" || need == "readPartial", "recv.readPartial": need == "read" || need == "readPartial",
+					"recv.write": need == "write" || need == "writePartial", "recv.writePartial": need == "write" || need == "writePartial"}
 				for _, g := range Guards(b) {
 					if g.Val && Path(g.Cond) == "recv."+need {
 						has = true
+					}
+					if !allowed[Path(g.Cond)] {
+						ok = false
+						detail += fmt.Sprintf(" %s.%s also depends on %s=%v;", owner, fname, Path(g.Cond), g.Val)
 					}
 				}
 				if !has {
